@@ -29,12 +29,19 @@ def main():
             ui = models.ui_model(m, tab)
             rec["raw_state_order"] = [str(s) for s in ui.state]
             rec["raw_control_order"] = [str(s) for s in ui.control]
+            import dataclasses
+
+            from formak import cpp
+
             for kind, name in (("ekf", "filter"), ("model", "model")):
-                res, header, source = H.generate(m, wd, ns="gen", name=name, kind=kind)
+                cfg = cpp.Config(**models.cpp_config(m))  # one caller-owned Config object for both generations
+                cfg_before = dataclasses.asdict(cfg)
+                res, header, source = H.generate(m, wd, ns="gen", name=name, kind=kind, config=cfg)
                 rec[f"{kind}_header"] = hashlib.sha256(open(header, "rb").read()).hexdigest()
                 rec[f"{kind}_source"] = hashlib.sha256(open(source, "rb").read()).hexdigest()
-                # generating twice in one process must also be identical
-                res, header, source = H.generate(m, wd, ns="gen", name=name, kind=kind)
+                rec[f"{kind}_config_unchanged"] = dataclasses.asdict(cfg) == cfg_before
+                # generating twice in one process (same Config object) must also be identical
+                res, header, source = H.generate(m, wd, ns="gen", name=name, kind=kind, config=cfg)
                 again = hashlib.sha256(open(header, "rb").read()).hexdigest() + hashlib.sha256(open(source, "rb").read()).hexdigest()
                 rec[f"{kind}_repeat_same"] = again == rec[f"{kind}_header"] + rec[f"{kind}_source"]
             f = models.compile_py_ekf(m, common_subexpression_elimination=False)
